@@ -11,6 +11,8 @@ CONSTANTS
   UseOpts = FALSE
   UseBlocks = FALSE
   Axes <- MC_Axes
+  FirstKinds <- MC_KindsAll
+  TwinFormatSeq <- MC_TwinFormats
   MaxObs = 0
   MaxRagged = 3
   MaxRaggedInt = 2
